@@ -502,9 +502,12 @@ def _body_forced_gap(case):
                              {"id": g, "reader_%s_got" % case["reader"]: got, "answered_inside_the_gap": bool(in_gap)})
         if rp is not None:
             rp.join(10)
-        obs = _observe(s)
-        if _diff(_expected(stored), obs):
-            return _fail("storage/forced-gap-final", _expected(stored), obs)
+        exp, obs = _expected(stored), _observe(s)
+        bad = _diff(exp, obs)
+        if bad:
+            return _fail("storage/" + {"reads": "read", "iter": "iteration-with-gaps" if not exp[
+                "contiguous"] else "iteration"}.get(bad, bad), {"after": "forced-gap stores", bad: exp[bad]},
+                         {bad: obs[bad]})
         s.close()
         s.flush()
     return {"ok": True, "trivial": False, "scenario": "storage/read-during-store", "expected": None,
